@@ -244,8 +244,8 @@ protected:
         __m512d lo, hi;
         uint8_t mask0, mask1;
         split_mask<Size>(mask, mask0, mask1);
-        lo = _mm512_mask_load_pd(lo, mask0, reinterpret_cast<const double*>(data  ));
-        hi = _mm512_mask_load_pd(hi, mask1, reinterpret_cast<const double*>(data+4));
+        lo = _mm512_maskz_load_pd(mask0, reinterpret_cast<const double*>(data  ));
+        hi = _mm512_maskz_load_pd(mask1, reinterpret_cast<const double*>(data+4));
         arrange_from_load(value_r, value_i, lo, hi);
 #else
         int maska[Size];
@@ -265,8 +265,8 @@ protected:
         __m512d lo, hi;
         uint8_t mask0, mask1;
         split_mask<Size>(mask, mask0, mask1);
-        lo = _mm512_mask_loadu_pd(lo, mask0, reinterpret_cast<const double*>(data  ));
-        hi = _mm512_mask_loadu_pd(hi, mask1, reinterpret_cast<const double*>(data+4));
+        lo = _mm512_maskz_loadu_pd(mask0, reinterpret_cast<const double*>(data  ));
+        hi = _mm512_maskz_loadu_pd(mask1, reinterpret_cast<const double*>(data+4));
         arrange_from_load(value_r, value_i, lo, hi);
 #else
         int maska[Size];
@@ -764,8 +764,8 @@ protected:
         __m256d lo, hi;
         uint8_t mask0, mask1;
         split_mask<Size>(mask, mask0, mask1);
-        lo = _mm256_mask_load_pd(lo, mask0, reinterpret_cast<const double*>(data  ));
-        hi = _mm256_mask_load_pd(hi, mask1, reinterpret_cast<const double*>(data+2));
+        lo = _mm256_maskz_load_pd(mask0, reinterpret_cast<const double*>(data  ));
+        hi = _mm256_maskz_load_pd(mask1, reinterpret_cast<const double*>(data+2));
         arrange_from_load(value_r, value_i, lo, hi);
 #else
         int maska[Size];
@@ -785,8 +785,8 @@ protected:
         __m256d lo, hi;
         uint8_t mask0, mask1;
         split_mask<Size>(mask, mask0, mask1);
-        lo = _mm256_mask_loadu_pd(lo, mask0, reinterpret_cast<const double*>(data  ));
-        hi = _mm256_mask_loadu_pd(hi, mask1, reinterpret_cast<const double*>(data+2));
+        lo = _mm256_maskz_loadu_pd(mask0, reinterpret_cast<const double*>(data  ));
+        hi = _mm256_maskz_loadu_pd(mask1, reinterpret_cast<const double*>(data+2));
         arrange_from_load(value_r, value_i, lo, hi);
 #else
         int maska[Size];
@@ -1300,8 +1300,8 @@ protected:
         __m128d lo, hi;
         uint8_t mask0, mask1;
         split_mask<Size>(mask, mask0, mask1);
-        lo = _mm_mask_load_pd(lo, mask0, reinterpret_cast<const double*>(data  ));
-        hi = _mm_mask_load_pd(hi, mask1, reinterpret_cast<const double*>(data+1));
+        lo = _mm_maskz_load_pd(mask0, reinterpret_cast<const double*>(data  ));
+        hi = _mm_maskz_load_pd(mask1, reinterpret_cast<const double*>(data+1));
         arrange_from_load(value_r, value_i, lo, hi);
 #else
         int maska[Size];
@@ -1321,8 +1321,8 @@ protected:
         __m128d lo, hi;
         uint8_t mask0, mask1;
         split_mask<Size>(mask, mask0, mask1);
-        lo = _mm_mask_loadu_pd(lo, mask0, reinterpret_cast<const double*>(data  ));
-        hi = _mm_mask_loadu_pd(hi, mask1, reinterpret_cast<const double*>(data+1));
+        lo = _mm_maskz_loadu_pd(mask0, reinterpret_cast<const double*>(data  ));
+        hi = _mm_maskz_loadu_pd(mask1, reinterpret_cast<const double*>(data+1));
         arrange_from_load(value_r, value_i, lo, hi);
 #else
         int maska[Size];
